@@ -364,7 +364,7 @@ class Scheduler:
             self.waiting[tid] = label
             self.cv.notify_all()
             while self.waiting.get(tid) is not None:
-                if not self.cv.wait(timeout=20):
+                if not self.cv.wait(timeout=180):
                     raise H.HarnessError("scheduler dead-lock")
 
     def finish(self, tid):
@@ -376,7 +376,7 @@ class Scheduler:
         with self.cv:
             while len(self.done) < n:
                 # wait until every live thread is parked at a gate
-                if not self.cv.wait_for(lambda: len(self.done) + len([t for t, l in self.waiting.items() if l is not None and t not in self.done]) >= n or len(self.done) >= n, timeout=20):
+                if not self.cv.wait_for(lambda: len(self.done) + len([t for t, l in self.waiting.items() if l is not None and t not in self.done]) >= n or len(self.done) >= n, timeout=180):
                     raise H.HarnessError("scheduler timeout")
                 if len(self.done) >= n:
                     break
@@ -439,7 +439,7 @@ def schedule_run(schedule):
                 t.start()
             sched.run(2)
             for t in ths:
-                t.join(30)
+                t.join(300)
         out["trace"] = [f"{t}:{l}" for t, l in sched.trace]
         out["results"] = {t: r[0] for t, r in results.items()}
         files = profrs_files(env.tmp)
